@@ -286,7 +286,22 @@ func stallTimeout(c *rp.Ctx) time.Duration {
 	return 20 * time.Second
 }
 
-const memLimit = 8 << 30
+// memGrowthLimit: a heap that grew by this much since the start of the run is a decoder allocating without bound
+const memGrowthLimit = 4 << 30
+
+// begin / end bracket a unit of work for the watchdog (a decoder call, an enum case, a timing measurement)
+func (w *worker) begin(desc string) {
+	w.desc.Store(desc)
+	w.start.Store(time.Now().UnixNano())
+}
+
+func (w *worker) end() {
+	if w.start.Load() == -1 {
+		// the watchdog gave up on this unit; whatever happens now is not reported twice
+		runtime.Goexit()
+	}
+	w.start.Store(0)
+}
 
 // runParallel runs one(i) for every case; a call in flight longer than the stall timeout (or a heap beyond memLimit)
 // ends the run with the verdict "stall" for the case in flight.
@@ -329,6 +344,8 @@ func runParallel(c *rp.Ctx, n, workers int, one func(w *worker, i int) rp.Result
 	tick := time.NewTicker(100 * time.Millisecond)
 	defer tick.Stop()
 	var ms runtime.MemStats
+	runtime.ReadMemStats(&ms)
+	memLimit := ms.HeapAlloc + memGrowthLimit
 	nticks := 0
 	for {
 		select {
@@ -357,7 +374,7 @@ func runParallel(c *rp.Ctx, n, workers int, one func(w *worker, i int) rp.Result
 				}
 				if oldest != nil {
 					stalled = append(stalled, oldest)
-					why = fmt.Sprintf("stall: the heap grew beyond %d MiB while the decoder was running for %v", memLimit>>20, time.Duration(now-oldest.start.Load()))
+					why = fmt.Sprintf("stall: the heap grew by more than %d MiB while the decoder was running for %v", memGrowthLimit>>20, time.Duration(now-oldest.start.Load()))
 				}
 			}
 		}
@@ -407,14 +424,9 @@ func runParallel(c *rp.Ctx, n, workers int, one func(w *worker, i int) rp.Result
 
 // guarded runs one decoder call with the watchdog armed.
 func guarded(w *worker, d *decoder, b []byte, arg int, label string) outcome {
-	w.desc.Store(fmt.Sprintf("decoder %s on input (%s, %d bytes) %s", d.name, label, len(b), hexInput(b)))
-	w.start.Store(time.Now().UnixNano())
+	w.begin(fmt.Sprintf("decoder %s on input (%s, %d bytes) %s", d.name, label, len(b), hexInput(b)))
 	o := callDecoder(d, b, arg)
-	if w.start.Load() == -1 {
-		// the watchdog gave up on this call; whatever happens now is not reported twice
-		runtime.Goexit()
-	}
-	w.start.Store(0)
+	w.end()
 	return o
 }
 
